@@ -110,6 +110,23 @@ class World:
             ".backend": backend_shim,
         }
         self.re = _load("loky.reusable_executor", "loky/reusable_executor.py", rshims)
+        if scen.get("futyield"):
+            # scheduling points *between* Future method calls of parent threads (each call itself is atomic:
+            # it runs under the Future's own condition lock); such runs are judged by the oracles only
+            base = self.pe.Future
+
+            def yielding(name):
+                orig = getattr(base, name)
+
+                def meth(f, *a, **k):
+                    if getattr(E.ENG._tls, "actor", None) is not None:
+                        E.ENG.op("fut", None, name)
+                    return orig(f, *a, **k)
+                meth.__name__ = name
+                return meth
+            self.pe.Future = type("Future", (base,), {n: yielding(n) for n in (
+                "cancel", "cancelled", "running", "done", "set_running_or_notify_cancel", "set_result",
+                "set_exception")})
         # per simulated process pickler selection (the real one is interpreter-global)
         self.pickler = {}
 
